@@ -123,6 +123,14 @@ class Buggify:
                 "natural_fail": dict(self.natural_fail)}
 
 
+class Runaway(BaseException):
+    """An integration outside any func_timeout deadline has used more right-hand-side
+    evaluations than a whole normal generation needs by orders of magnitude.  hypnotoad
+    has no bound there (PsiContour.refine on contours built with absurd tolerances can
+    integrate for tens of minutes); the harness stops the run and records it as
+    *undecided* - neither a pass nor a violation - instead of dying on the OS watchdog."""
+
+
 class ClockSim:
     """`func_timeout.func_timeout` on a simulated clock.
 
@@ -152,6 +160,8 @@ class ClockSim:
         # deadline after ~2e5 evaluations, as it would under the real func_timeout
         self.rhs_cost = float(plan.get("rhs_cost_s", 5.0e-5))
         self.rhs_evals = 0
+        self.free_rhs = 0
+        self.runaway_cap = int(plan.get("runaway_cap", 3000000))
 
     def _func_timeout(self, timeout, func, args=(), kwargs=None):
         kwargs = kwargs or {}
@@ -188,6 +198,10 @@ class ClockSim:
         st = self.stack[tid]
         self.rhs_evals += 1
         if not st:
+            self.free_rhs += 1
+            if self.free_rhs > self.runaway_cap:
+                raise Runaway(f"more than {self.runaway_cap} ODE evaluations outside any "
+                              "deadline")
             return
         dt = self.rhs_cost * self.slowness
         self.clock[tid] += dt
